@@ -14,7 +14,7 @@ pub struct SetScript {
     /// 0 = world cell, 1 = base cell, 2 = quintant, 3 = deep cell
     pub root_kind: u8,
     pub root: gen::CellSpec,
-    /// (pick, action): action 0..=5 subdivide, 6..=7 delete, 8 subdivide-all-siblings
+    /// (pick, action): action 0..=5 subdivide, 6..=7 delete, 8 subdivide-all-siblings, 9 chain, 10 aligned subsample, 11 refine all
     pub ops: Vec<(u16, u8)>,
     /// (pick, kind, k): overlap injection
     pub overlaps: Vec<(u16, u8, u8)>,
@@ -54,7 +54,7 @@ pub fn script(max_ops: usize, with_overlaps: bool) -> impl Strategy<Value = SetS
     let shallow = (
         prop_oneof![4 => Just(0u8), 2 => Just(1u8), 2 => Just(2u8), 2 => Just(3u8)],
         gen::cell_spec(2, 29),
-        proptest::collection::vec((any::<u16>(), prop_oneof![9 => 0u8..9, 1 => Just(10u8)]), 0..max_ops),
+        proptest::collection::vec((any::<u16>(), prop_oneof![18 => 0u8..9, 2 => Just(10u8), 1 => Just(11u8)]), 0..max_ops),
         proptest::collection::vec((any::<u16>(), 0u8..6, any::<u8>()), 0..=ov),
         proptest::collection::vec(any::<u16>(), 0..=(if with_overlaps { 4 } else { 0 })),
         any::<u64>(),
@@ -147,6 +147,17 @@ pub fn build(s: &SetScript) -> Built {
                         }
                         set = out;
                     }
+                }
+            }
+            11 => {
+                // refine EVERY member by one level: the way to long inputs (thousands of cells) that the
+                // one-at-a-time ops cannot reach
+                if set.len() <= 1500 && set.iter().all(|x| x.res < max_res) {
+                    let mut out = Vec::with_capacity(set.len() * 5);
+                    for x in &set {
+                        out.extend(tree::children(x));
+                    }
+                    set = out;
                 }
             }
             6..=7 => {
